@@ -112,7 +112,7 @@ def main(tier, replay):
         print(json.dumps(case, indent=1)[:3000]); sys.exit(0)
     fam = list(C.family_E(3, 1)) if tier == 'quick' else list(C.family_E(3, 2))
     cases = [('E%d' % i, 'fam', ch) for i, ch in enumerate(fam)]
-    nrand = 300 if tier == 'quick' else 10000
+    nrand = 1500 if tier == 'quick' else 10000
     base = chk.seed * 1000000 + 55
     cases += [('r%d' % i, 'rand', base + i) for i in range(nrand)]
     chk.add('family_E_documents', len(fam)); chk.add('random_documents', nrand)
